@@ -23,4 +23,11 @@ if marker in s:
     s = s[:s.index(marker)]
 s = s.rstrip() + "\n\n" + "\n".join(out) + "\n"
 open('/verif/DESIGN.md', 'w').write(s)
+# Appendix E: seeded changes
+import os
+idx = '/verif/seeded/INDEX.md'
+if os.path.exists(idx):
+    body = open(idx).read().split('\n', 2)[2]
+    s = open('/verif/DESIGN.md').read().rstrip() + "\n\n## Appendix E — seeded changes and the checks that report them (generated from /verif/seeded/*/meta.json by tools/recheck_seeds.py)\n" + body
+    open('/verif/DESIGN.md', 'w').write(s)
 print("appendix D written:", len(out), "lines")
